@@ -190,7 +190,8 @@ where
     let is_infallible_cast =
         (input_precision as i16) + (delta_scale as i16) <= (output_precision as i16);
     let f_infallible = is_infallible_cast
-        .then_some(move |x| O::Native::from_decimal(x).unwrap().mul_wrapping(mul));
+        // also applied to the arbitrary values of null slots, which may not convert
+        .then_some(move |x| O::Native::from_decimal(x).unwrap_or_default().mul_wrapping(mul));
     Some((f_fallible, f_infallible))
 }
 
@@ -261,7 +262,8 @@ where
     // [99999] -> [99] + 1 = [100], a cast to Decimal(2, 0) would not be possible
     let is_infallible_cast =
         (input_precision as i16) - (delta_scale as i16) < (output_precision as i16);
-    let f_infallible = is_infallible_cast.then_some(move |x| f_fallible(x).unwrap());
+    // also applied to the arbitrary values of null slots, which may not convert
+    let f_infallible = is_infallible_cast.then_some(move |x| f_fallible(x).unwrap_or_default());
     Some((f_fallible, f_infallible))
 }
 
